@@ -293,8 +293,11 @@ impl Monitors {
         let first_total = first_spec.total_msat.or(first_spec.forward_msat).unwrap_or(0);
         let first_fee_fails = !fee_sufficient_ref(cfg.base, cfg.ppm, first_total, amount);
         let first_expiry_fails = first_spec.cltv_rel < cfg.policy_delta as i64;
-        let fresh = matches!(lc.fetch_state, Some("Absent") | Some("Free")) || lc.hist_clean;
-        if (first_fee_fails || first_expiry_fails) && fresh && cfg.mpp_timeout_s != 0 && !lc.tainted {
+        // "no earlier attempt on record" (C12 clause): what the plugin read
+        let fresh_record = matches!(lc.fetch_state, Some("Absent") | Some("Free"));
+        // C11 timing: also a stale in-flight marker left by attempts the plugin itself had concluded
+        let fresh = fresh_record || (lc.hist_clean && lc.fetch_state == Some("Pending"));
+        if (first_fee_fails || first_expiry_fails) && fresh_record && cfg.mpp_timeout_s != 0 && !lc.tainted {
             self.stats.c12_clause += 1;
             let want = hex::encode(fee_failure_ref(cfg.base, cfg.ppm, cfg.policy_delta));
             let first_answer = answers.iter().find(|a| a.0 == first).map(|a| a.1.clone());
